@@ -319,7 +319,7 @@ woken, `set_value(7)` by thread 0 -/
 def demoEvs : List Ev := [
   .reg 1 0, .act 1 {}, .act 1 {}, .act 1 {},         -- on_finish(cb0): load, CAS ok, return
   .reg 2 1, .act 2 {},                               -- on_finish(cb1): load (list still open)
-  .get 3, .act 3 {}, .act 3 {}, .act 3 {},           -- get: load, fetch_add, futex_wait (sleeps)
+  .get 3, .act 3 {}, .act 3 {}, .act 3 {},           -- get: load, fetch_or, futex_wait (sleeps)
   .set 0 7, .act 0 {}, .act 0 {}, .act 0 {},         -- set_value(7): ready check, construct, seal
   .act 2 {}, .act 2 {}, .act 2 {},                   -- cb1: CAS fails on SEALED, run inline, return
   .act 0 {}, .act 0 {woken := 1},                    -- exchange READY, wake_all
@@ -337,7 +337,7 @@ example : let s := demo.get demo_some
 /-- a latch with count 3: `count_down(1)` by thread 1, `count_down(2)` by thread 2 fires; thread 3 polls
 `wait_for(5)` across a clock tick of 10 ns before that (returns false), then `ready()` afterwards -/
 def latchEvs : List Ev := [
-  .waitFor 3 5, .act 3 {}, .act 3 {}, .act 3 {}, .act 3 {},   -- load, clock, fetch_add, futex_wait (sleeps)
+  .waitFor 3 5, .act 3 {}, .act 3 {}, .act 3 {}, .act 3 {},   -- load, clock, fetch_or, futex_wait (sleeps)
   .tick 10, .act 3 {}, .act 3 {}, .act 3 {}, .act 3 {},       -- timeout, load, clock, return false
   .down 1 1, .act 1 {}, .act 1 {},                            -- 3 → 2
   .down 2 2, .act 2 {},                                       -- 2 → 0: this thread sets the promise
